@@ -317,7 +317,17 @@ theorem tveQF_correct (A : List Nat) (bases : List Basis) (hA : ∀ d ∈ A, 0 <
     rw [← payoff_qfRules A a ha hA bases hw, h3]
     exact bruteMax_ge A _ a ha
 
-/-- test on a literal (two bases on the same tag accumulate; one agent in no basis): hypotheses satisfiable -/
+/-- the hypotheses of `tveQF_correct` (and of `approxQF_claims`) hold for a concrete non-trivial QFunction: two bases on the
+    same tag, a single-agent basis on a non-first agent, one agent in no basis, non-uniform sizes -/
+example : (∀ d ∈ [2,3,2], 0 < d) ∧
+    (∀ b ∈ ([⟨[0,1],[1,-2,3,0,1/2,-1]⟩, ⟨[1],[0,1,-1]⟩, ⟨[0,1],[0,0,0,0,0,4]⟩] : List Basis),
+      b.WF [2,3,2] ∧ b.keys ≠ [] ∧ ∀ k ∈ b.keys, k < [2,3,2].length) := by
+  refine ⟨by decide, ?_⟩
+  intro b hb
+  simp only [List.mem_cons, List.mem_nil_iff, or_false] at hb
+  rcases hb with rfl | rfl | rfl <;> exact ⟨⟨by decide, by decide⟩, by decide, by decide⟩
+
+/-- test on a literal: the value of the run on that QFunction -/
 example : tveRunQF [2,3,2] [⟨[0,1],[1,-2,3,0,1/2,-1]⟩, ⟨[1],[0,1,-1]⟩, ⟨[0,1],[0,0,0,0,0,4]⟩] = ([0,1,0], 4) ∧
     tveRun [2,3,2] (qfRules [2,3,2] [⟨[0,1],[1,-2,3,0,1/2,-1]⟩, ⟨[1],[0,1,-1]⟩, ⟨[0,1],[0,0,0,0,0,4]⟩]) = ([0,1,0], 4) := by
   constructor <;> decide +kernel
